@@ -8,6 +8,7 @@ RULE = ('random histories of the grammar setters*;bake+;(init+;exchange(recalcul
         'order/resolution/duration, permuted setters) on real objects and on the Lean life-cycle model, each compared with '
         'the canonical fresh history of its final configuration; caller-owned inputs hashed before/after each call; '
         'non-trivial = history with >= 2 cycles or a repeated stage')
+RULE = RULE + '; overriding setters, two installation styles of one configuration, re-sourcing from sources in the floor plane / outside the room'
 ASSUMPTIONS = ['equal terms denote equal arrays (kernels are deterministic pure functions; numerical correspondence)',
                'parameter-mutation scan is syntactic (generated list of in-place sites whose base is a parameter)']
 EXPLANATION = 'config_determines: the whole state after any history of the grammar equals that of the fresh canonical history; stages are idempotent; setters commute up to private numbering; no in-place site targets a parameter.'
